@@ -149,6 +149,23 @@ def lemmas(aut, pid, tier, scratch):
         if tier == "thorough":
             out.append(("C01.lr/column-head/later", Lemma(aut, "head", expr0, Seq(T("COMMA"), T("ID"), T("ID"), Opt(SIZE)), ["COMMA", "RP"], expr0, aut.start, 1, K=8),
                         "from [0, expr]: , name type [(n) | (p, s)] followed by ',' or ')' returns to [0, expr] with one fold"))
+    if pid == "C02":
+        pre = ["CREATE", "TABLE", "ID", "LP", "ID", "ID", "COMMA"]
+        for name, head in (("primary-key", pre + ["PRIMARY", "KEY", "LP", "ID"]), ("unique", pre + ["UNIQUE", "LP", "ID"]),
+                           ("foreign-key", pre + ["FOREIGN", "KEY", "LP", "ID"]),
+                           ("references", pre + ["FOREIGN", "KEY", "LP", "ID", "RP", "REFERENCES", "ID", "LP", "ID"])):
+            sp = aut.boundary_stack(head, "COMMA")
+            out.append((f"C02.lr/name-list-step/{name}", Lemma(aut, "pid", sp, Seq(T("COMMA"), T("ID")), ["COMMA", "RP"], sp, "pid", 1, K=2),
+                        f"inside the column list of a table-level {name} clause: `, name` followed by ',' or ')' returns to the same stack with exactly one `pid` fold "
+                        "=> key / unique / foreign-key / referenced column lists of any length"))
+        if tier == "thorough":
+            PIDL = Seq(T("LP"), T("ID"), Opt(Seq(T("COMMA"), T("ID"))), T("RP"))
+            item = Seq(T("COMMA"), Alt(Seq(T("PRIMARY"), T("KEY"), PIDL), Seq(T("UNIQUE"), PIDL)))
+            out.append(("C02.lr/item-step/unnamed", Lemma(aut, "item", expr0, item, ["COMMA", "RP"], expr0, aut.start, 1, K=8),
+                        "from [0, expr]: , PRIMARY KEY (a[, b]) | , UNIQUE (a[, b]) followed by ',' or ')' returns to [0, expr] with exactly one fold into the table"))
+            named = Seq(T("COMMA"), T("CONSTRAINT"), T("ID"), Alt(Seq(T("PRIMARY"), T("KEY")), T("UNIQUE")), T("LP"), T("ID"), T("RP"))
+            out.append(("C02.lr/item-step/named", Lemma(aut, "item", expr0, named, ["COMMA", "RP"], expr0, aut.start, 1, K=8),
+                        "from [0, expr]: , CONSTRAINT n PRIMARY KEY (a) | , CONSTRAINT n UNIQUE (a) followed by ',' or ')' returns to [0, expr] with exactly one fold"))
     if pid == "C11" and tier == "thorough":
         base, streams, names = clause_token_streams(scratch)
         cat = json.load(open(f"{VERIF}/catalog/clauses.json"))["clauses"]
